@@ -137,7 +137,7 @@ func GetAncestors(nodes ...*html.Node) (map[*html.Node]int, *html.Node) {
 func MakeAllLinksAbsolute(root *html.Node, pageURL *nurl.URL) {
 	rootTagName := dom.TagName(root)
 
-	if rootTagName == "a" {
+	if rootTagName == "a" || rootTagName == "area" {
 		if href := dom.GetAttribute(root, "href"); href != "" {
 			absHref := stringutil.CreateAbsoluteURL(href, pageURL)
 			dom.SetAttribute(root, "href", absHref)
@@ -151,7 +151,7 @@ func MakeAllLinksAbsolute(root *html.Node, pageURL *nurl.URL) {
 		}
 	}
 
-	for _, link := range dom.GetElementsByTagName(root, "a") {
+	for _, link := range dom.QuerySelectorAll(root, "a,area") {
 		if href := dom.GetAttribute(link, "href"); href != "" {
 			absHref := stringutil.CreateAbsoluteURL(href, pageURL)
 			dom.SetAttribute(link, "href", absHref)
